@@ -16,7 +16,7 @@ pub fn level(prop: &str) -> &'static str {
 fn rule_text(prop: &str) -> &'static str {
     match prop {
         "C01" => "seeded generation of rules (swarm feature mask per run; YAML built from the generator, plus the repository's 52 rule fixtures) and of documents derived from each rule's own predicates (absent / satisfying / near miss / other kind / arrays / objects + noise); each rule is optimised under all 15 non-empty switch sets x several hash seeds (hook H1) and its verdict vector compared with the unoptimised rule through a simulator-owned document. evaluations = scenarios executed. distinct_nontrivial = distinct (rule-shape digest, switch set, optimised-tree digest) triples in which the optimised tree differs from the unoptimised one and the rule's verdict vector over its documents is not constant.",
-        "C12" => "seeded scenarios in three configurations: hash (optimise under several hash seeds, and twice under the same seed), history (a long-lived rule under a drawn sequence of match/clone/serialise/validate/optimise-a-clone operations, against fresh-rule verdicts), threads (2-16 real OS threads sharing one Arc<Rule>, exactly one runnable, interleaved at every document call-back by a seeded random or PCT scheduler, against the sequential verdicts). evaluations = scenarios executed. distinct_nontrivial = distinct (rule-shape, hash seed, switch set) with >= 2 seeded maps created [hash] + distinct (rule-shape, operation sequence) with >= 2 matches and non-constant verdicts [history] + distinct (rule-shape, schedule digest) with >= 2 context switches [threads].",
+        "C12" => "seeded scenarios in three configurations: hash (optimise under several hash seeds, and twice under the same seed), history (a long-lived rule under a drawn sequence of match/clone/serialise/validate/optimise-a-clone operations, against fresh-rule verdicts), threads (2-16 real OS threads sharing one Arc<Rule>, exactly one runnable, interleaved at every document call-back by a seeded random or PCT scheduler, against the sequential verdicts). evaluations = scenarios executed. distinct_nontrivial = distinct (rule-shape, switch set) optimised under several hash seeds with >= 2 seeded maps created [hash] + distinct (rule-shape, operation sequence) with >= 2 matches and non-constant verdicts [history] + distinct (rule-shape, schedule digest) with >= 2 context switches [threads].",
         _ => "",
     }
 }
